@@ -65,6 +65,8 @@ pub struct Args {
     pub seed: i64,
     pub verif_dir: String,
     pub list: bool,
+    /// Use the scenario list of another property (diagnostics only).
+    pub spec: Option<String>,
 }
 
 pub fn parse_args() -> Args {
@@ -81,6 +83,7 @@ pub fn parse_args() -> Args {
         seed: std::env::var("VERIF_SEED").ok().and_then(|s| s.parse().ok()).unwrap_or(0),
         verif_dir: std::env::var("VERIF_DIR").unwrap_or_else(|_| "/verif".to_string()),
         list: false,
+        spec: None,
     };
     let mut it = std::env::args().skip(1);
     while let Some(x) = it.next() {
@@ -96,6 +99,7 @@ pub fn parse_args() -> Args {
             "--only" => a.only = it.next(),
             "--budget-s" => a.budget_s = it.next().and_then(|s| s.parse().ok()),
             "--list" => a.list = true,
+            "--spec" => a.spec = it.next(),
             _ if a.property.is_empty() => a.property = x,
             _ => {
                 eprintln!("unknown argument {}", x);
@@ -218,7 +222,7 @@ pub fn run_check(args: &Args, spec: CheckSpec) -> ! {
     }
     // violations of this property, by key
     let mut viol: BTreeMap<String, (String, Found)> = BTreeMap::new();
-    let mut foreign: BTreeMap<String, u64> = BTreeMap::new();
+    let mut foreign: BTreeMap<String, Value> = BTreeMap::new();
     for st in &all {
         for f in st.violations.values() {
             if f.property == "MACHINERY" {
@@ -226,7 +230,8 @@ pub fn run_check(args: &Args, spec: CheckSpec) -> ! {
                 std::process::exit(2);
             }
             if f.property != spec.property {
-                *foreign.entry(format!("{}:{}", f.property, f.key)).or_default() += f.count;
+                let e = foreign.entry(format!("{}:{}", f.property, f.key)).or_insert_with(|| json!({"count": 0, "scenario": st.name, "example": f.msg, "choices": f.choices}));
+                e["count"] = json!(e["count"].as_u64().unwrap_or(0) + f.count);
                 continue;
             }
             let better = match viol.get(&f.key) {
